@@ -129,10 +129,9 @@ Fixpoint bubble (fuel : nat) (c : schema) (cur : option ty) (ss : list sel) (v :
              if starts_uu n then walk rest (x :: done) m errs up else
              match lookup al m with
              | None | Some RNil =>
-                 (* execution_result.go:221: return, not continue — the rest of the object is not looked at *)
-                 let remaining := rev done ++ x :: map fst rest in
-                 if ty_nn t then BOk (RMap m) remaining (errs ++ [{| be_alias := al; be_path := path ++ [PName al] |}]) true
-                 else BOk (RMap m) remaining errs up
+                 (* execution_result.go:212-222 (after fix 17e5b21): report a non-null null, then go on with the next field *)
+                 if ty_nn t then walk rest (x :: done) m (errs ++ [{| be_alias := al; be_path := path ++ [PName al] |}]) true
+                 else walk rest (x :: done) m errs up
              | Some child =>
                  match oss with
                  | None => walk rest (x :: done) m errs up
@@ -153,7 +152,7 @@ Fixpoint bubble (fuel : nat) (c : schema) (cur : option ty) (ss : list sel) (v :
              | BErr e => BErr e
              | BOk v' fs' lerrs lup =>
                  let m' := match v' with RMap m' => m' | _ => m end in
-                 walk rest (set_child x fs' :: done) m' (errs ++ lerrs) lup      (* lines 243/251: '=' not '||' *)
+                 walk rest (set_child x fs' :: done) m' (errs ++ lerrs) (up || lup)      (* lines 243/251, after fix 694d7a8 *)
              end
          end) (union_trim c (typename_of m) ss) [] m [] false
   | RArr l =>
@@ -162,7 +161,11 @@ Fixpoint bubble (fuel : nat) (c : schema) (cur : option ty) (ss : list sel) (v :
          match l with
          | [] => BOk (RArr (rev acc)) ss errs up
          | x :: rest =>
-             match bubble fuel c cur ss x (path ++ [PIdx i]) with                      (* same currentType: nested lists *)
+             (* after fix c3464ca: an element that is itself a list is judged by the element type *)
+             let cur' := match x, cur with
+                         | RArr _, Some t => match ty_elem t with Some e => Some e | None => cur end
+                         | _, _ => cur end in
+             match bubble fuel c cur' ss x (path ++ [PIdx i]) with
              | BErr e => BErr e
              | BOk x' ss' lerrs lup =>
                  if lup then if elem_nn then each rest (S i) ss' (x' :: acc) (errs ++ lerrs) true
